@@ -828,3 +828,241 @@ def drive_c06(ctx):
     fuzz_small = list(itertools.islice(fuzz_inputs(ctx, 1), 0, None, 9 if ctx.quick else 2))
     for label, b in fuzz_small:
         rec.add('Unmarshal', P, nt=True, label=label, **actions.unmarshal(b))
+
+
+# ---------------------------------------------------------------------------
+# C10  encoders never emit bytes that decode to a different value
+# ---------------------------------------------------------------------------
+def wild_ints(rng):
+    out = list(gen.boundary_ints(2))
+    out += [1 << 70, -(1 << 70), (1 << 64) + 5, -(1 << 64) - 5, 255, 256, -1, 65535, 65536, -32769]
+    out += [rng.randint(-(1 << 66), 1 << 66) for _ in range(20)]
+    return out
+
+
+def wild_decimals(rng):
+    import decimal
+    D = decimal.Decimal
+    out = [D('-1.5'), D('0.0000001'), D('1.5E-7'), D('1.5E+3'), D('1E+9'), D('1E+10'), D('2147483647'), D('2147483648'),
+           D('-2147483648'), D('-2147483649'), D('21474836.48'), D('0.1') ** 30, D('1E-255'), D('1E-256'), D('-0'), D('0E-7'),
+           D('NaN'), D('sNaN'), D('Infinity'), D('-Infinity'), D('1.10'), D('100'), D('1E2'), D('123456789012345678901234567890'),
+           D('0.30000000000000004'), D('-0.000000000000000000000000000001'), D('4294967296'), D('4294967295'), D('-1E-300'),
+           D('9' * 40), D('1.' + '0' * 30), D('429496729.5')]
+    for _ in range(60):
+        digits = tuple(rng.randint(0, 9) for _ in range(rng.choice([1, 2, 9, 10, 11, 20, 40])))
+        out.append(D((rng.getrandbits(1), digits, rng.choice([-300, -256, -255, -40, -10, -3, -1, 0, 1, 5, 9, 10, 40]))))
+    return out
+
+
+def wild_datetimes(rng):
+    import datetime as dtm
+    import time
+    U = dtm.timezone.utc
+    out = [dtm.datetime(1969, 12, 31, 23, 59, 59, tzinfo=U), dtm.datetime(1969, 12, 31, 23, 59, 59), dtm.datetime(1, 1, 1),
+           dtm.datetime(1900, 1, 1, tzinfo=U), dtm.datetime(2106, 2, 7, 6, 28, 15, tzinfo=U), dtm.datetime(2106, 2, 7, 6, 28, 16, tzinfo=U),
+           dtm.datetime(2106, 2, 7, 6, 28, 16), dtm.datetime(9999, 12, 31, 23, 59, 59, tzinfo=U), dtm.datetime(3000, 1, 1, 12, 0, 0, 500000),
+           dtm.datetime(1970, 1, 1, 0, 0, 0, tzinfo=dtm.timezone(dtm.timedelta(hours=1))),
+           dtm.datetime(1970, 1, 1, 0, 30, 0, tzinfo=dtm.timezone(dtm.timedelta(hours=-1))),
+           time.struct_time((1969, 12, 31, 23, 59, 59, 0, 1, 0)), time.struct_time((2200, 1, 1, 0, 0, 0, 0, 1, 0)),
+           time.gmtime(0), time.gmtime(2 ** 32 - 1), time.gmtime(2 ** 32)]
+    for _ in range(40):
+        out.append(gen.rand_datetime_in_range(rng))
+    for _ in range(20):
+        sec = rng.randint(2 ** 32, 253402300799)
+        out.append(dtm.datetime(1970, 1, 1, tzinfo=U) + dtm.timedelta(seconds=sec))
+    for _ in range(10):
+        out.append(dtm.datetime(1970, 1, 1, tzinfo=U) - dtm.timedelta(seconds=rng.randint(1, 10 ** 9)))
+    return out
+
+
+class Weird:
+    pass
+
+
+def wild_misc(rng):
+    import decimal
+    return [b'bytes', b'', memoryview(b'mv'), (1, 2), {1, 2}, frozenset(), Weird(), 1 + 2j, range(3), {'k': (1,)}, [b'x'],
+            {1: 'non-str key'}, {'a' * 129: 1}, {'a' * 128: 1}, {'é' * 128: 1}, {'x' * 255: 1}, {'€' * 86: 1}, {'k' * 300: {'j' * 200: 5}},
+            '\ud800', {'\ud800': 1}, ['\udfff'], 'x' * 70000, bytearray(b'\x00' * 300), float('nan'), float('inf'), 1e39, -1e39,
+            3.4028235677973366e+38, True, None, {'a': None, 'b': [None, {}]}, [[[[[]]]]], decimal.Decimal('1.5')]
+
+
+WILD_ARGS = [2, -1, 255, 256, 0, 1, None, 'x', '', [], [0], {}, {'k': 1}, 1.0, 0.0, 2.5, b'b', True, False, 3000000000, -(1 << 63), 1 << 63,
+             1 << 64, 65535, 65536, 'é' * 128, 'x' * 255, 'x' * 256, (1,), bytearray(b'q')]
+
+
+@driver('C10')
+def drive_c10(ctx):
+    from pamqp import body, commands, header
+    rec, rng = ctx.rec, ctx.rng
+    P = ['C10']
+    vals = wild_ints(rng) + wild_decimals(rng) + wild_datetimes(rng) + wild_misc(rng) + \
+        [gen.rand_float(rng, allow_overflow=True) for _ in range(60)]
+    k = 0
+    for v in vals:
+        k += 1
+        if not mine(ctx, k):
+            continue
+        rec.add('EncodeValue', P, nt=True, **actions.encode_value(v, 'top'))
+        rec.add('EncodeValue', P, nt=True, **actions.encode_value([v, {'k': v}], 'top'))
+        rec.add('EncodeValue', P, nt=True, **actions.encode_value({'k': v}, 'table'))
+        for ty in ('octet', 'short', 'long', 'longlong', 'shortstr', 'longstr', 'table', 'timestamp'):
+            rec.add('EncodeArg', P, nt=True, **actions.encode_arg(ty, v))
+    for v in WILD_ARGS:
+        k += 1
+        if mine(ctx, k):
+            for ty in ('octet', 'short', 'long', 'longlong', 'shortstr', 'longstr', 'table', 'timestamp'):
+                rec.add('EncodeArg', P, nt=True, **actions.encode_arg(ty, v))
+    for _ in range(100 if ctx.quick else 3000):
+        rec.add('EncodeValue', P, nt=True, **actions.encode_value(gen.rand_value(rng, 3, 3), 'top'))
+    # method frames: one argument at a time replaced by a wild value (constructor validation bypassed by setattr
+    # only where the constructor refuses; validation errors are 'raises' and fine)
+    reps = 1 if ctx.quick else 6
+    for rep in range(reps):
+        for i, sm in enumerate(framegen.METHODS):
+            name, cid, mid, args = sm
+            for a, ty, d in args:
+                k += 1
+                if not mine(ctx, k):
+                    continue
+                pool = WILD_ARGS if ty != 'bit' else [2, -1, 255, 256, 0, 1, None, 'x', '', [], [0], 1.0, 0.0, 128, 3, 4, 64, -2]
+                for v in (pool if not ctx.quick else rng.sample(pool, min(8, len(pool)))):
+                    f = framegen.rand_method(rng, sm)
+                    setattr(f, a, v)
+                    rec.add('RoundTrip', P, nt=True, sigx='%s.%s' % (name, ty), **actions.roundtrip(f, framegen.rand_channel(rng)))
+    # content headers / properties / bodies / channels with wild values
+    settable = [p for p in framegen.PROPS if p[0] != 'cluster_id']
+    for _ in range(60 if ctx.quick else 1500):
+        h = framegen.rand_header(rng)
+        n, ty = rng.choice(settable)
+        setattr(h.properties, n, rng.choice(WILD_ARGS + wild_datetimes(rng)[:20]))
+        if rng.random() < 0.3:
+            h.body_size = rng.choice([-1, 1 << 64, (1 << 64) - 1, 1.5, None, '5', True])
+        rec.add('RoundTrip', P, nt=True, sigx='header.' + n, **actions.roundtrip(h, rng.choice([0, 1, 65535, 65536, -1, True])))
+    # the empty body is not driven: C18 restricts the round trip to non-empty bodies (the decoder refuses size 0)
+    for v in [b'x', bytearray(b'ab'), 'str', None, 5, [1], memoryview(b'zz')]:
+        rec.add('RoundTrip', P, nt=True, sigx='body', **actions.roundtrip(body.ContentBody(v), 1))
+    for t in [(256, 0, 0), (0, -1, 0), (0, 9, 1), (1.0, 2, 3), ('0', 9, 1), (True, False, 255), (None, 0, 0)]:
+        rec.add('RoundTrip', P, nt=True, sigx='protocol-header', **actions.roundtrip(header.ProtocolHeader(*t), 0))
+
+
+# ---------------------------------------------------------------------------
+# C12  deterministic, order-independent, non-mutating
+# ---------------------------------------------------------------------------
+def shuffled(rng, v):
+    """same content, another insertion order at every nesting level"""
+    if isinstance(v, dict):
+        items = [(k, shuffled(rng, x)) for k, x in v.items()]
+        rng.shuffle(items)
+        return dict(items)
+    if isinstance(v, list):
+        return [shuffled(rng, x) for x in v]
+    return v
+
+
+ORDER_KEYS = ['a', 'ab', 'b', '', 'é', 'B', 'a' * 128, 'a' * 127 + 'b', 'aa', 'z', '\U0001F600', '~', 'A']
+
+
+@driver('C12')
+def drive_c12(ctx):
+    import json
+    rec, rng = ctx.rec, ctx.rng
+    P = ['C12']
+    # S2C: every insertion order reachable in MC_Order, built as a real dict in exactly that order
+    s2c = ctx.gen.get('orders')
+    if s2c:
+        for i, line in enumerate(open(s2c)):
+            if mine(ctx, i):
+                from abstraction import concrete
+                tbl = concrete(json.loads(line)['tbl'])
+                rec.add('EncodeValue', P, nt=True, **actions.encode_value(tbl, 'table'))
+                rec.add('EncodeValue', P, nt=True, **actions.encode_value([tbl, {'n': tbl}], 'top'))
+    # permutations of up to 6 keys, nested tables inside arrays permuted independently
+    for _ in range(60 if ctx.quick else 1500):
+        keys = rng.sample(ORDER_KEYS, rng.randint(2, 6))
+        base = {}
+        for k in keys:
+            c = rng.random()
+            base[k] = rng.randint(-300, 70000) if c < 0.5 else ({kk: rng.randint(0, 9) for kk in rng.sample(ORDER_KEYS, 3)} if c < 0.8
+                                                                else [{kk: 1 for kk in rng.sample(ORDER_KEYS, 3)}, 5])
+        a = actions.encode_value(base, 'table')
+        rec.add('EncodeValue', P, nt=True, **a)
+        for _ in range(3):
+            other = shuffled(rng, base)
+            b = actions.encode_value(other, 'table')
+            rec.add('EncodeValue', P, nt=True, **b)
+            rec.add('SameBytes', P, nt=True, in1=a['in'], in2=b['in'], out1=a['out'], out2=b['out'])
+    # every kind of value, twice, with before/after snapshots (lists, byte arrays, nested)
+    for _ in range(150 if ctx.quick else 4000):
+        rec.add('EncodeValue', P, nt=True, **actions.encode_value(gen.rand_value(rng, 4, 4), 'top'))
+    for _ in range(60 if ctx.quick else 1500):
+        f, ch = framegen.rand_frame(rng)
+        rec.add('RoundTrip', P, nt=True, **actions.roundtrip(f, ch))
+    for i, sm in enumerate(framegen.METHODS):
+        if mine(ctx, i):
+            rec.add('RoundTrip', P, nt=True, **actions.roundtrip(framegen.rand_method(rng, sm), 1))
+
+
+# ---------------------------------------------------------------------------
+# C15  time zone independence
+# ---------------------------------------------------------------------------
+ZONES_QUICK = ['UTC', 'Pacific/Kiritimati', 'Asia/Kathmandu', 'America/New_York', 'Europe/London', 'Australia/Lord_Howe']
+ZONES_ALL = ZONES_QUICK + ['Etc/GMT+12', 'Asia/Kolkata', 'America/St_Johns', 'Europe/Berlin', 'Australia/Sydney',
+                           'Pacific/Auckland', 'America/Sao_Paulo', 'XYZ-3:45ABC-4:45,M3.2.0/2,M11.1.0/2',
+                           'WET8WEST7,J60/0,J300/0', 'Africa/Casablanca']
+
+
+def tz_instants(rng, n):
+    import datetime as dtm
+    import time
+    U = dtm.timezone.utc
+    out = []
+    secs = [0, 1, 2 ** 31 - 1, 2 ** 31, 2 ** 31 + 1, 2 ** 32 - 1, 86399, 86400, 13 * 3600, 951782400]
+    # DST transition hours (+-1 s) of several zones and years: around the 2nd Sunday of March / last Sunday of March /
+    # first Sunday of November / last Sunday of October / first Sunday of April and October, 00:00..03:30 local
+    for year in (1987, 2007, 2021, 2024, 2038, 2100):
+        for month, day in ((3, 8), (3, 14), (3, 25), (3, 31), (4, 1), (4, 7), (10, 1), (10, 6), (10, 25), (10, 31), (11, 1), (11, 7)):
+            base = int(dtm.datetime(year, month, day, tzinfo=U).timestamp())
+            for h in (0, 1, 2, 3, 7, 10, 13, 16):
+                for d in (-1, 0, 1, 1800):
+                    s = base + h * 3600 + d
+                    if 0 <= s < 2 ** 32:
+                        secs.append(s)
+    secs = rng.sample(secs, min(len(secs), n)) + [rng.randint(0, 2 ** 32 - 1) for _ in range(n // 2)]
+    for s in secs:
+        t = dtm.datetime(1970, 1, 1, tzinfo=U) + dtm.timedelta(seconds=s)
+        out.append(t.replace(tzinfo=None))                              # naive: read as UTC
+        out.append(t.replace(tzinfo=None, fold=1))
+        out.append(t)                                                   # aware UTC
+        out.append(t.astimezone(dtm.timezone(dtm.timedelta(seconds=rng.choice([3600, -18000, 20700, 45900, -34200])))))
+        out.append(time.struct_time((t.year, t.month, t.day, t.hour, t.minute, t.second, 0, 1, rng.choice([-1, 0, 1]))))
+        out.append(time.gmtime(s))
+    return out
+
+
+@driver('C15')
+def drive_c15(ctx):
+    import struct
+    rec, rng = ctx.rec, ctx.rng
+    P = ['C15']
+    zones = ZONES_QUICK if ctx.quick else ZONES_ALL
+    inst = tz_instants(rng, 12 if ctx.quick else 60)
+    wires = [0, 1, 2 ** 31 - 1, 2 ** 31, 2 ** 32 - 1, 2 ** 32, 1700000000123, 253402300799999] + [rng.randint(0, 2 ** 32 - 1) for _ in range(20)]
+    for zi, z in enumerate(zones):
+        if not mine(ctx, zi):
+            continue
+        rec.add('SetTZ', P, nt=True, **actions.set_tz(z))
+        for v in inst:
+            rec.add('EncodeValue', P, nt=True, **actions.encode_value(v, 'top'))
+            rec.add('EncodeArg', P, nt=True, **actions.encode_arg('timestamp', v))
+        for w in wires:
+            rec.add('DecodeValue', P, nt=True, **actions.decode_value(b'T' + struct.pack('>Q', w), 'top'))
+        # switch zones in the middle of a run: the previous zone must leave no trace
+        z2 = rng.choice(zones)
+        rec.add('SetTZ', P, nt=True, **actions.set_tz(z2))
+        for v in inst[:30]:
+            rec.add('EncodeValue', P, nt=True, **actions.encode_value({'t': v, 'l': [v]}, 'table'))
+        # a fresh interpreter started with TZ=<zone>
+        for ev in actions.tz_child(z, ctx.seed + zi, 40 if ctx.quick else 200):
+            rec.add(ev.pop('a'), P, nt=True, **ev)
+    rec.add('SetTZ', P, **actions.set_tz('UTC'))
